@@ -6,7 +6,9 @@ package main
 // subscriber. merge-excess-schedules drives the merger goroutine alone; the parked-window runs drive the whole
 // pipeline but only with the subscriber parked for entire windows. Here the whole pipeline runs with takes ANYWHERE:
 // the equivalence handed to the collection is a wrapper that records its calls. The loop calls it exactly once per
-// change it takes from the merger (no WithInclude in this family), so the harness knows when a take has happened
+// change it takes from the merger and forwards; with WithInclude the include predicate is wrapped as well (it is
+// called once for the old and once for the new value of a taken change, whichever exist, BEFORE the equivalence;
+// a change outside the filter on both sides is dropped without an equivalence call), so the harness knows when a take has happened
 // and whether the loop is now blocked handing the change to the subscriber (the wrapper answered "not equivalent")
 // or goes on to take the next one (it answered "equivalent": suppressed). Writes and subscriber receives are issued
 // one at a time, each after the previous step is complete: the schedule of receives and takes the merger saw is a
@@ -27,13 +29,15 @@ import (
 	"github.com/smart-core-os/sc-golang/pkg/resource"
 	"github.com/smart-core-os/sc-golang/verifharness/lib"
 	"google.golang.org/protobuf/proto"
+	"google.golang.org/protobuf/types/known/fieldmaskpb"
 )
 
 type cfreeOut struct {
 	err   string
 	evs   []pev
 	acts  []string // the schedule as the merger saw it: event tokens | "t"
-	calls []bool   // the equivalence's answer at each take
+	calls []bool   // the equivalence's answer at each take that was forwarded
+	takes int      // changes the loop took from the merger
 	got   []*resource.CollectionChange
 	viol  [][3]string
 }
@@ -72,6 +76,25 @@ func (c pcase) runFreeCollectionInner(out *cfreeOut) {
 		return r
 	}
 	ncalls := func() int { mu.Lock(); defer mu.Unlock(); return len(calls) }
+	incCalls := 0
+	nInc := func() int { mu.Lock(); defer mu.Unlock(); return incCalls }
+	included := func(m proto.Message) bool { return m != nil && (c.Inc == nil || c.Inc.holds(m)) }
+	var ro []resource.ReadOption
+	if c.Mask != nil {
+		ro = append(ro, resource.WithReadMask(&fieldmaskpb.FieldMask{Paths: c.Mask}))
+	}
+	if c.Inc != nil {
+		inc := c.Inc
+		ro = append(ro, resource.WithInclude(func(_ string, m proto.Message) bool {
+			mu.Lock()
+			incCalls++
+			mu.Unlock()
+			return inc.holds(m)
+		}))
+	}
+	if c.UpdatesOnly {
+		ro = append(ro, resource.WithUpdatesOnly(true))
+	}
 	clk := &fakeClock{t: t0}
 	opts := []resource.Option{resource.WithClock(clk)}
 	if len(c.Ops)%2 == 1 {
@@ -131,7 +154,7 @@ func (c pcase) runFreeCollectionInner(out *cfreeOut) {
 	i++
 	ctx, cancel := context.WithCancel(context.Background())
 	defer cancel()
-	ch := col.Pull(ctx, c.lossyReadOptions()...)
+	ch := col.Pull(ctx, ro...)
 	view := map[string]proto.Message{}
 	recvB := func() *resource.CollectionChange {
 		w := bounded(lossyWait)
@@ -147,7 +170,13 @@ func (c pcase) runFreeCollectionInner(out *cfreeOut) {
 		}
 	}
 	if !c.UpdatesOnly {
-		for n := len(stored); n > 0; n-- {
+		nseeds := 0
+		for _, m := range stored {
+			if included(m) {
+				nseeds++
+			}
+		}
+		for n := nseeds; n > 0; n-- {
 			x := recvB()
 			if x == nil || !x.SeedValue {
 				out.err = "seed values not received"
@@ -181,23 +210,54 @@ func (c pcase) runFreeCollectionInner(out *cfreeOut) {
 		id       string
 		old, new proto.Message
 	}
-	takes := 0
+	takes, cmps := 0, 0
+	incSeen := nInc() // include calls so far (the seeds)
 	// takeLoop: while the loop is free and the merger has something queued, the loop takes the front change
 	takeLoop := func() bool {
 		for !handFull && len(waiting) > 0 {
 			takes++
-			if !waitFor(func() bool { return ncalls() >= takes }) {
-				out.err = fmt.Sprintf("take %d: the loop never looked at the queued change of %s", takes, waiting[0])
+			id := waiting[0]
+			t, cur := lastTold[id], stored[id]
+			lost := func() bool {
+				out.err = fmt.Sprintf("take %d: the loop never looked at the queued change of %s", takes, id)
 				out.viol = append(out.viol, [3]string{"C16/Collection.Pull/free/queued-change-not-taken", "the loop takes the queued change once it is free", out.err})
 				return false
 			}
+			if c.Inc != nil {
+				// include is asked about the old and the new value of the taken change (those that exist)
+				if t != nil {
+					incSeen++
+				}
+				if cur != nil {
+					incSeen++
+				}
+				if !waitFor(func() bool { return nInc() >= incSeen }) {
+					return lost()
+				}
+			}
+			oInc, nIncl := included(t), included(cur)
+			if !oInc && !nIncl {
+				// outside the filter before and after: dropped by the loop, no equivalence call
+				out.acts = append(out.acts, "t")
+				waiting = waiting[1:]
+				continue
+			}
+			cmps++
+			if !waitFor(func() bool { return ncalls() >= cmps }) {
+				return lost()
+			}
 			mu.Lock()
-			r := calls[takes-1]
+			r := calls[cmps-1]
 			mu.Unlock()
 			out.acts = append(out.acts, "t")
-			id := waiting[0]
 			waiting = waiting[1:]
-			hand.id, hand.old, hand.new = id, flt(lastTold[id]), flt(stored[id])
+			hand.id, hand.old, hand.new = id, nil, nil
+			if oInc {
+				hand.old = flt(t)
+			}
+			if nIncl {
+				hand.new = flt(cur)
+			}
 			equiv := E != nil && E(hand.old, hand.new)
 			if r != equiv {
 				kind, what := "delivered-equivalent", "about to deliver"
@@ -205,7 +265,7 @@ func (c pcase) runFreeCollectionInner(out *cfreeOut) {
 					kind, what = "suppressed-nonequivalent", "suppressed"
 				}
 				out.viol = append(out.viol, [3]string{"C16/Collection.Pull/free/" + class + "/" + kind,
-					fmt.Sprintf("take %d: id %s from the value last handed over %v to the stored %v: equivalent=%v", takes, id, hand.old, hand.new, equiv), what})
+					fmt.Sprintf("take %d: id %s from the value last handed over %v to the stored %v (as the subscriber may see them): equivalent=%v", takes, id, hand.old, hand.new, equiv), what})
 			}
 			handFull = !r
 		}
@@ -306,13 +366,16 @@ func (c pcase) runFreeCollectionInner(out *cfreeOut) {
 	mu.Lock()
 	out.calls = append([]bool(nil), calls...)
 	mu.Unlock()
-	if len(out.calls) != takes {
-		out.viol = append(out.viol, [3]string{"C16/Collection.Pull/free/equivalence-calls", fmt.Sprintf("%d (one per change taken)", takes), fmt.Sprint(len(out.calls))})
+	out.takes = takes
+	if len(out.calls) != cmps {
+		out.viol = append(out.viol, [3]string{"C16/Collection.Pull/free/equivalence-calls", fmt.Sprintf("%d (one per change taken and forwarded)", cmps), fmt.Sprint(len(out.calls))})
 	}
 	// the subscriber has caught up: its view is the stored collection (ids always; values unless a tolerance drifts)
 	var ids, vids []string
-	for id := range stored {
-		ids = append(ids, id)
+	for id, m := range stored {
+		if included(m) {
+			ids = append(ids, id)
+		}
 	}
 	for id := range view {
 		vids = append(vids, id)
@@ -334,7 +397,7 @@ func (c pcase) runFreeCollectionInner(out *cfreeOut) {
 }
 
 func (c pcase) cfreeLine(out cfreeOut) string {
-	return strings.Join(append([]string{"cfree", c.specToken(), c.filterToken(), "any"}, out.acts...), " ")
+	return strings.Join(append([]string{"cfree", c.specToken(), c.filterToken(), c.Inc.token(c.Type)}, out.acts...), " ")
 }
 
 // cfreeAnswers renders model and code as "n=<takes> d=<delivered changes>".
@@ -357,13 +420,13 @@ func (c pcase) cfreeAnswers(out cfreeOut, ans string) (model, code string) {
 	if out.err != "" {
 		return model, "error:" + out.err
 	}
-	return model, fmt.Sprintf("n=%d d=%s q=", len(out.calls), showChanges(out.got))
+	return model, fmt.Sprintf("n=%d d=%s q=", out.takes, showChanges(out.got))
 }
 
 func (c pcase) monitorFreeCollection(ms *monitors, out cfreeOut) {
 	in := c.json()
-	ms.free.Eval(fmt.Sprintf("cfree %s %s %s %d", c.specToken(), c.filterToken(), c.Sched, len(out.evs)), c.Spec != nil, nil)
-	ms.free.Count(fmt.Sprintf("cfree:events=%d:takes=%d:delivered=%d", min(len(out.evs), 8), min(len(out.calls), 8), min(len(out.got), 8)))
+	ms.free.Eval(fmt.Sprintf("cfree %s %s %s %s %d", c.specToken(), c.filterToken(), c.Inc.token(c.Type), c.Sched, len(out.evs)), c.Spec != nil, nil)
+	ms.free.Count(fmt.Sprintf("cfree:events=%d:takes=%d:delivered=%d", min(len(out.evs), 8), min(out.takes, 8), min(len(out.got), 8)))
 	for _, v := range out.viol {
 		ms.free.Violate(v[0], "Collection.Pull without backpressure: every change the loop takes goes from the value last handed over for that id to the value stored now, it is delivered iff these two are NOT equivalent, ids in the order of their latest event, and once the subscriber has caught up its view has the stored ids (and, under an exact equivalence, the stored values)", in, v[1], v[2])
 	}
@@ -375,7 +438,6 @@ func (c pcase) monitorFreeCollection(ms *monitors, out cfreeOut) {
 func (g *gen) pcaseFreeCollection() pcase {
 	c := g.pcaseParked()
 	c.Kind = "cfree"
-	c.Inc = nil
 	c.NoDup = false
 	var ops []cop
 	writes := 0
@@ -410,7 +472,7 @@ func (g *gen) pcaseFreeCollection() pcase {
 
 func runFreeCollection(f lib.Flags, res *lib.Result, drv *lib.Driver, ms *monitors) {
 	tie := res.Tie("collection-pull-free", "K1",
-		"Collection.Pull WITHOUT backpressure end to end, free-running subscriber made deterministic: the random parked-family cases (0-3 initial items on ids a,b,c, 1-18 Add/Update/Delete mostly on one focus id with small steps and returns to earlier values, any ancestor type, equivalence none | Equal() | Equal(tolerances around the written steps) handed over wrapped so that every call is seen, optional read mask, every 6th WithUpdatesOnly; no WithInclude) with a random interleaving of writes and subscriber receives (35% receive before each write), then the subscriber catches up. The model (cfree: mergerRun over the schedule as the merger saw it, then the loop's filter and equivalence) must predict the number of takes and every delivered change (id, type, WHICH old and new value). Non-trivial: an equivalence configured")
+		"Collection.Pull WITHOUT backpressure end to end, free-running subscriber made deterministic: the random parked-family cases (0-3 initial items on ids a,b,c, 1-18 Add/Update/Delete mostly on one focus id with small steps and returns to earlier values, any ancestor type, equivalence none | Equal() | Equal(tolerances around the written steps) handed over wrapped so that every call is seen, optional read mask, every 6th WithUpdatesOnly, on TestAllTypes 40% with WithInclude(float field gt/lt/ge a threshold on or beside a written value), the include predicate wrapped like the equivalence) with a random interleaving of writes and subscriber receives (35% receive before each write), then the subscriber catches up. The model (cfree: mergerRun over the schedule as the merger saw it, then the loop's filter and equivalence) must predict the number of takes and every delivered change (id, type, WHICH old and new value). Non-trivial: an equivalence configured")
 	g := &gen{r: lib.NewRand(f.Seed + 32416190)}
 	for i, n := 0, f.N(300, 4000); i < n; i++ {
 		c := g.pcaseFreeCollection()
@@ -424,7 +486,8 @@ func runFreeCollection(f lib.Flags, res *lib.Result, drv *lib.Driver, ms *monito
 		}
 		model, code := c.cfreeAnswers(out, ans)
 		tie.Record(c.cfreeLine(out), c.Spec != nil, c.json(), model, code)
-		tie.Count(fmt.Sprintf("merged=%d:suppressed=%d", min(len(out.evs)-len(out.calls), 6), min(len(out.calls)-len(out.got), 6)))
+		tie.Count(fmt.Sprintf("merged=%d:suppressed=%d", min(len(out.evs)-out.takes, 6), min(len(out.calls)-len(out.got), 6)))
+		tie.Count(fmt.Sprintf("include=%v:dropped-outside=%d", c.Inc != nil, min(out.takes-len(out.calls), 4)))
 		if c.Spec == nil {
 			tie.Count("equivalence:none")
 		} else if c.tolerance() {
